@@ -2,7 +2,7 @@
 From Coq Require Import ZArith.
 From IV Require Import Base.Bytes Model.StoreSpec Model.Retention Proofs.RetentionSteps.
 Theorem steps_compute_scan : forall cfg cutoff order st,
-  exists n, s_st (run cfg cutoff (sys_init order st) (repeat EStep n)) = scan cfg cutoff order st /\
-            s_phase (run cfg cutoff (sys_init order st) (repeat EStep n)) = PDone false.
+  exists n, s_st (run cfg cutoff (sys_init order st) (repeat (EStep false) n)) = scan cfg cutoff order st /\
+            s_phase (run cfg cutoff (sys_init order st) (repeat (EStep false) n)) = PDone false.
 Proof. exact RetentionSteps.steps_compute_scan. Qed.
 Print Assumptions steps_compute_scan.
